@@ -117,6 +117,9 @@ def _has_cond(ex):
 def run(ctx) -> Report:
     rep = Report("C18")
     prog = ctx.prog
+    # the memo-key clause first: it needs no interpretation, and what it finds is reported even if a later clause cannot follow the code
+    from ..memokey import check_memo_keys, memo_rule  # noqa: F401
+    memo_rule(ctx, rep, "C18-key", ['ufl.algorithms.estimate_degrees'])
     cls = prog.get_class(CLS)
     ctx.crosscheck_dispatch({"SumDegreeEstimator"})
     pb = lambda n, *a: uflmodel.make_pullback(prog, n, *a)  # noqa: E731
@@ -353,5 +356,4 @@ def run(ctx) -> Report:
     rep.assumptions = ["affine simplex cells (degree-reducing derivative rule applies)", "generic coefficients: no accidental cancellation except structural ones present in the expression", "one representative spatial direction for total degree"]
     from ..memokey import memo_rule
 
-    memo_rule(ctx, rep, "C18-key", ['ufl.algorithms.estimate_degrees'])
     return rep
